@@ -47,6 +47,7 @@ class RingSystem:
         self.N, self.shape, self.storage, self.obs_dtype = N, tuple(shape), storage, obs_dtype
         self.E = numel(shape)
         self.full = full_alphabet
+        self.lifecycle = False
         self.config = {"N": N, "shape": list(shape), "storage": storage, "obs_dtype": obs_dtype}
 
     # ---- construction -------------------------------------------------------------
@@ -151,6 +152,8 @@ class RingSystem:
         yield ("setlatest",)
         yield ("pop",)
         yield ("dellatest",)
+        if self.lifecycle and self.storage in ("zeros", "param"):  # only under C12 (checks/c12_checkpoint.py: ring_shard)
+            yield ("roundtrip",)  # lifecycle: state_dict() loaded into a freshly constructed model, which replaces the live one
         for o in range(0, 2 * N + 1):
             for ip in (False, True):
                 yield ("write", o, ip)
@@ -249,6 +252,20 @@ class RingSystem:
                         fillv = False if self.obs_dtype == "bool" and st.dtype == "bool" else 0
                         st.M = [[fillv] * E for _ in range(N)]
                     st.p = 0
+            elif name == "roundtrip":
+                import io
+                old = st.mod
+                buf = io.BytesIO()
+                torch.save(old.state_dict(), buf)
+                buf.seek(0)
+                blob = torch.load(buf, weights_only=False)
+                new = self.fresh()
+                for _ in range((st.step % N) + 1):  # the target has run on other data before the load
+                    new.rt.push(torch.full(self.shape, 1, dtype=DT[self.obs_dtype]))
+                new.mod.load_state_dict(blob)
+                scribble(old.rec.value.data)
+                st.mod, st.rt = new.mod, new.rt
+                rt = st.rt
             elif name == "readrange":
                 _, L, o, fwd, kind = op
                 offs, arg = self.offsets(o, kind)
